@@ -22,7 +22,7 @@ def DepsOK (e : Env) (σ : St) : Prop :=
   ∀ t, FwdEff e t → (σ.tst t).done = true → (σ.tst t).forward = true →
     ∀ dp ∈ (e.taskD t).allDeps, (e.taskD dp.target).leaf = true →
       (σ.tst dp.target).scheduled = true ∧
-      ∀ dt v, dateOf σ dp = some dt → (σ.tst t).start = some v → dt + dp.gap ≤ v
+      ∀ dt v, dateOf σ dp = some dt → (σ.tst t).start = some v → depDate e dp dt ≤ v
 
 structure DepInv (e : Env) (σ : St) (tasks : List Nat) : Prop where
   nodup : tasks.Nodup
@@ -129,7 +129,7 @@ theorem depInv_step (e : Env) (wf : WF e) (σ : St) (tasks : List Nat) (t0 : Nat
       refine ⟨by rw [hxsame]; exact hxs, fun dt v hdt hv => ?_⟩
       have hdt' : (if dp.onstart then (σ.tst dp.target).start else (σ.tst dp.target).stop) = some dt := by
         unfold dateOf at hdt; rw [hxsame] at hdt; exact hdt
-      have := boundOf_ge_dep e σ t dp hdp dt hdt'
+      have := boundOf_ge_depDate e σ t dp hdp dt hdt'
       rw [hv0] at hv
       have : v0 = v := by simpa using hv
       omega
